@@ -1,7 +1,8 @@
 (* Property C17: configuration sources are equivalent and precedence is as documented.
    Only theorem statements closed by `exact`, each followed by Print Assumptions. *)
 From Coq Require Import List String Bool.
-From C17 Require Import Model ProofsSort ProofsResolve ProofsOptions ProofsFlags.
+From Coq Require Import Ascii.
+From C17 Require Import Model ProofsSort ProofsResolve ProofsOptions ProofsFlags ProofsValues.
 From Gen Require Import Flags.
 Import ListNotations.
 Open Scope string_scope.
@@ -98,6 +99,57 @@ Theorem resolve_needs_wf :
 Proof. exact ProofsOptions.resolve_needs_wf. Qed.
 Print Assumptions resolve_needs_wf.
 
+(* ---- --strict / strict = True: for every global section, command line and option name, the order is
+   explicit CLI flag > --strict > strict of a per-module section (it sets the GLOBAL flags) > explicit
+   [mypy] key > strict = True of [mypy] > default *)
+Theorem strict_precedence : forall sa defaults cfg cfg_strict pm_strict cli cli_strict k,
+    cli_appends cli k = false ->
+    global_get_strict sa defaults cfg cfg_strict pm_strict cli cli_strict k
+    = spec_global_strict sa defaults cfg cfg_strict pm_strict cli cli_strict k.
+Proof. exact ProofsValues.strict_precedence. Qed.
+Print Assumptions strict_precedence.
+
+(* `strict = True` alone and `--strict` alone set exactly the same options (the generated strict set) *)
+Theorem strict_sources_agree : forall defaults k,
+    global_get_strict the_strict_set defaults [] true false [] false k
+    = global_get_strict the_strict_set defaults [] false false [] true k.
+Proof. exact ProofsValues.strict_sources_agree. Qed.
+Print Assumptions strict_sources_agree.
+
+Theorem strict_table_ok :
+  forallb strict_entry_ok the_strict_set = true
+  /\ List.length the_strict_set = List.length strict_flags
+  /\ nodupb (map fst the_strict_set) = true.
+Proof. exact ProofsValues.strict_table_ok. Qed.
+Print Assumptions strict_table_ok.
+
+(* list-valued options (always_true, enable/disable_error_code, ...): for EVERY list of clean names and any
+   whitespace after the commas, the ini reader, the toml string reader and the toml array reader return the
+   list that repeated command-line flags append *)
+Theorem comma_lists_agree : forall pad items,
+    (forall a, In a (list_ascii_of_string pad) -> is_ws a = true) ->
+    Forall (clean is_comma) items ->
+    let text := join_with (String ","%char pad) items in
+    ini_list text = items /\ try_split_str is_comma text = items /\ try_split_list items = items.
+Proof. exact ProofsValues.comma_lists_agree. Qed.
+Print Assumptions comma_lists_agree.
+
+Theorem follow_imports_choices_agree : follow_imports_choices_cli = follow_imports_choices_cfg.
+Proof. exact ProofsValues.follow_imports_choices_agree. Qed.
+Print Assumptions follow_imports_choices_agree.
+
+(* inline comments: every boolean per-module option can be set and inverted; they are NOT restricted to
+   per-module options (observation), python_version and strict are rejected *)
+Theorem inline_per_module_bools : forallb inline_bool_ok per_module_options = true.
+Proof. exact ProofsValues.inline_per_module_bools. Qed.
+Print Assumptions inline_per_module_bools.
+
+Theorem inline_accepts_global_options :
+  In "warn_unused_configs" inline_accepted_globals /\ In "pretty" inline_accepted_globals
+  /\ inl "python_version" = IRejectVersion /\ inl "strict" = IRejectStrict.
+Proof. exact ProofsValues.inline_accepts_global_options. Qed.
+Print Assumptions inline_accepts_global_options.
+
 (* non-vacuity *)
 Example hypotheses_satisfiable : NoDup (map fst ex_pmo) /\ wf_names ex_pmo.
 Proof. exact ex_pmo_ok. Qed.
@@ -112,3 +164,13 @@ Proof. repeat split. Qed.
 Example a_spelling : In ("--allow-untyped-defs", ("disallow_untyped_defs", false)) all_cli_spellings
                      /\ cfg "allow_untyped_defs" = CSet "disallow_untyped_defs" true.
 Proof. split; vm_compute; auto 60. Qed.
+Example trailing_separator_differs :
+  ini_list "A, " = ["A"; ""] /\ try_split_str is_comma "A, " = ["A"].
+Proof. exact ProofsValues.trailing_separator_differs. Qed.
+Example clean_names : clean is_comma "FOO" /\ clean is_comma "attr-defined".
+Proof.
+  split; (split; [|split]); try discriminate; intros a H; simpl in H;
+    repeat (destruct H as [H|H]; [subst a; reflexivity|]); contradiction.
+Qed.
+Example strict_example : sa_get the_strict_set "implicit_reexport" = Some false /\ sa_get the_strict_set "warn_return_any" = Some true.
+Proof. split; vm_compute; reflexivity. Qed.
